@@ -48,8 +48,9 @@ class Interp:
         if isinstance(t, TUn):
             return VUn(p.fresh(hint, t.sort()), t)
         if t is TDyn:
-            D.axioms(self)
-            return VDyn(p.fresh(hint, t.sort()))
+            v = VDyn(p.fresh(hint, t.sort()))
+            D.wf(self, v.e)
+            return v
         if isinstance(t, TOpt):
             v = VOpt(p.fresh(hint, t.sort()), t)
             self._assume_wf_expr(v.t.dt.val(v.e), t.inner, guard=z3.Not(v.is_none()))
@@ -279,7 +280,7 @@ class Interp:
         if isinstance(v, VNone):
             return z3.BoolVal(False)
         if isinstance(v, VDyn):
-            D.axioms(self)
+            D.wf(self, v.e)
             return D.truth(v)
         if isinstance(v, VOpt):
             return z3.And(z3.Not(v.is_none()), self.truth(v.val()))
@@ -289,6 +290,8 @@ class Interp:
             return v.card > 0
         if isinstance(v, VTuple):
             return z3.BoolVal(len(v.items) > 0)
+        if isinstance(v, (VEmptyList, VEmptySet)):
+            return z3.BoolVal(False)
         if isinstance(v, VDictRec):
             return z3.BoolVal(len(v.fields) > 0)
         if isinstance(v, VOptObj):
@@ -584,6 +587,7 @@ class Interp:
     def ev_BoolOp(self, n, env):
         if self.spec:
             vals = [self.ev(v, env) for v in n.values]
+            vals = [VBool(self.undef_bool()) if isinstance(v, VUndef) else v for v in vals]
             if all(isinstance(v, VBool) for v in vals):
                 es = [v.e for v in vals]
                 return VBool(z3.And(es) if isinstance(n.op, ast.And) else z3.Or(es))
